@@ -36,7 +36,15 @@ def g_project(draw):
     sigma = ubm["variances"] * np.exp(r.uniform(-1, 1, (C, F)))
     items = [gen.fractional_stats(draw, C, F, ubm["means"], ubm["variances"], r=r, zero_prob=gen.choice(draw, [0.0, 0.3]))
              for _ in range(gen.integer(draw, 1, 4))]
-    return {"ubm": ubm, "T": T, "sigma": sigma, "items": items, "stats_layout": gen.choice(draw, ["C", "C", "F", "strided"])}
+    c = {"ubm": ubm, "T": T, "sigma": sigma, "items": items, "stats_layout": gen.choice(draw, ["C", "C", "F", "strided"])}
+    if float(scales.min()) >= 3 and gen.choice(draw, [False, True]):
+        # integral covariance values (and, when large enough, integral T) handed over as integer-typed arrays
+        c["sigma"] = np.maximum(np.rint(sigma), 1.0)
+        c["int_params"] = "sigma"
+        if float(np.abs(T).max()) >= 20 and gen.boolean(draw):
+            c["T"] = np.rint(T)
+            c["int_params"] = "sigma+T"
+    return c
 
 
 @REG.obligation("project_is_posterior_mean", g_project, quick=600, thorough=12000)
@@ -49,10 +57,14 @@ def c_project(ctx, case):
     m = IVectorMachine(ubm, dim_t=case["T"].shape[2])
     m.T = np.array(case["T"])
     m.sigma = np.array(case["sigma"])
+    if case.get("int_params"):
+        m.sigma = np.array(case["sigma"]).astype(np.int64)
+        if "T" in case["int_params"]:
+            m.T = np.array(case["T"]).astype(np.int64)
     m.dim_c, m.dim_d = p["C"], p["F"]
     stats = [sut.make_stats(s, layout=case.get("stats_layout", "C")) for s in case["items"]]
     R = case["T"].shape[2]
-    ctx.note(R >= 2 and p["C"] >= 2, "dim_t=%d" % R)
+    ctx.note(R >= 2 and p["C"] >= 2, "dim_t=%d" % R, "int:" + case["int_params"] if case.get("int_params") else None)
     outs = m.transform(stats)
     ctx.check(len(outs) == len(stats), "transform returned %d vectors for %d items" % (len(outs), len(stats)), "len")
     for s, st, o in zip(case["items"], stats, outs):
